@@ -33,7 +33,8 @@ CHECKS = {
             "Dec <=> the declarative grammar Lang.tla on every byte string up to length 4 (5 thorough) over 21 schemas "
             "(MC_Lang).", "6 C04, 13.2"),
     "C05": ("Every strict prefix of implementation-produced encodings of every pool type read through every reader kind "
-            "(buffer, pedantic, stringstream, ifstream, fd, BoundedReader over each): TrCodec.tla C05RC requires a non-ok "
+            "(buffer, pedantic, stringstream, ifstream, fd, BoundedReader over each), into a fresh destination and into one that "
+            "already holds the complete value: TrCodec.tla C05RC requires a non-ok "
             "status for each, incl. an FdReader on a pipe that delivers short reads and on a descriptor whose system calls are "
             "interrupted (EINTR) and shortened; block transfers reach the reader classes with the element width the codec used, "
             "and 16 encodings are cut at every prefix through Deserializer<BufferReader/PedanticBufferReader/StreamReader> "
